@@ -634,63 +634,66 @@ func (w *Writer) writeXRefStream(xRefDict Dict) error {
 		return err
 	}
 	wx := bufio.NewWriter(wxRaw)
-	for i := uint32(0); i < w.nextRef; i++ {
-		entry := w.xref[i]
-		if entry == nil {
-			err := wx.WriteByte(0)
-			if err != nil {
-				return err
-			}
-			err = encodeInt64(wx, 0, w2)
-			if err != nil {
-				return err
-			}
-			err = encodeInt64(wx, 0, w3)
-			if err != nil {
-				return err
-			}
-		} else if entry.Pos < 0 {
-			err := wx.WriteByte(0)
-			if err != nil {
-				return err
-			}
-			err = encodeInt64(wx, 0, w2)
-			if err != nil {
-				return err
-			}
-			err = encodeInt64(wx, uint64(entry.Generation), w3)
-			if err != nil {
-				return err
-			}
-		} else if entry.InStream == 0 {
-			err := wx.WriteByte(1)
-			if err != nil {
-				return err
-			}
-			err = encodeInt64(wx, uint64(entry.Pos), w2)
-			if err != nil {
-				return err
-			}
-			err = encodeInt64(wx, uint64(entry.Generation), w3)
-			if err != nil {
-				return err
-			}
-		} else {
-			err := wx.WriteByte(2)
-			if err != nil {
-				return err
-			}
-			err = encodeInt64(wx, uint64(entry.InStream.Number()), w2)
-			if err != nil {
-				return err
-			}
-			err = encodeInt64(wx, uint64(entry.Pos), w3)
-			if err != nil {
-				return err
+	writeEntries := func(wx *bufio.Writer) error {
+		for i := uint32(0); i < w.nextRef; i++ {
+			entry := w.xref[i]
+			if entry == nil {
+				err := wx.WriteByte(0)
+				if err != nil {
+					return err
+				}
+				err = encodeInt64(wx, 0, w2)
+				if err != nil {
+					return err
+				}
+				err = encodeInt64(wx, 0, w3)
+				if err != nil {
+					return err
+				}
+			} else if entry.Pos < 0 {
+				err := wx.WriteByte(0)
+				if err != nil {
+					return err
+				}
+				err = encodeInt64(wx, 0, w2)
+				if err != nil {
+					return err
+				}
+				err = encodeInt64(wx, uint64(entry.Generation), w3)
+				if err != nil {
+					return err
+				}
+			} else if entry.InStream == 0 {
+				err := wx.WriteByte(1)
+				if err != nil {
+					return err
+				}
+				err = encodeInt64(wx, uint64(entry.Pos), w2)
+				if err != nil {
+					return err
+				}
+				err = encodeInt64(wx, uint64(entry.Generation), w3)
+				if err != nil {
+					return err
+				}
+			} else {
+				err := wx.WriteByte(2)
+				if err != nil {
+					return err
+				}
+				err = encodeInt64(wx, uint64(entry.InStream.Number()), w2)
+				if err != nil {
+					return err
+				}
+				err = encodeInt64(wx, uint64(entry.Pos), w3)
+				if err != nil {
+					return err
+				}
 			}
 		}
+		return wx.Flush()
 	}
-	err = wx.Flush()
+	err = writeEntries(wx)
 	if err != nil {
 		return err
 	}
@@ -700,12 +703,25 @@ func (w *Writer) writeXRefStream(xRefDict Dict) error {
 	}
 	xRefData := xRefBuf.Bytes()
 
-	name, parms, err := filter.Info(w.meta.Version)
-	if err != nil {
-		return err
+	if int64(w.nextRef) <= limits.MaxXRefEntries(int64(len(xRefData))) {
+		name, parms, err := filter.Info(w.meta.Version)
+		if err != nil {
+			return err
+		}
+		xRefDict["Filter"] = name
+		xRefDict["DecodeParms"] = parms
+	} else {
+		// Very regular entries (long runs of unused numbers, or of objects
+		// in object streams) compress so well that the Reader would refuse
+		// the stream: it caps the number of entries by the length of the
+		// stream data.  Such a table is stored as it is.
+		xRefBuf = &bytes.Buffer{}
+		err = writeEntries(bufio.NewWriter(xRefBuf))
+		if err != nil {
+			return err
+		}
+		xRefData = xRefBuf.Bytes()
 	}
-	xRefDict["Filter"] = name
-	xRefDict["DecodeParms"] = parms
 	xRefDict["Length"] = Integer(len(xRefData))
 
 	swx, err := w.OpenStream(ref, xRefDict)
